@@ -222,6 +222,52 @@ format_case(8, True, SIZES[1024], b"abc", with_pub=False)
 for alg in (1, 3, 6, 7, 12):
     format_case(alg, R.choice([None, True, False]), SIZES[1024], b"abc")
 
+# the same module object asked several times (two KSK entries may share a token label; one ceremony looks a key up once per slot): every look-up is answered
+# for its own hash mode and from the token as it is now
+for alg, kd in ((8, KR[0]), (13, KEC[0]), (10, KR[1])):
+    for seq in ([True, False], [False, True], [None, True, None], [True, True, False, None]):
+        layout = [[{"id": 0, "objs": S.pair(kd["id"], kd)}]]
+        tok = S.build_token(layout)
+        emu.install(tok)
+        mods = modules_from(layout)
+        msg = bytes(R.randrange(256) for _ in range(80))
+        for step, hh in enumerate(seq):
+            n0 = len(tok.sign_log)
+            k_ = vlib.run_impl(get_p11_key, kd["id"], mods, False, hh)
+            count("repeated-lookup")
+            if k_[0] != "ok" or k_[1] is None:
+                rep.violation("impl-vs-spec", f"repeated look-up #{step + 1} of {kd['id']} (hash_using_hsm={hh}) failed: {k_[2] if k_[0] != 'ok' else 'not found'}", {"kind": "repeated-lookup", "sequence": seq})
+                break
+            r_ = vlib.run_impl(sign_using_p11, k_[1], msg, AlgorithmDNSSEC(alg))
+            ent = tok.sign_log[n0] if len(tok.sign_log) > n0 else None
+            if alg in DI and not hh:
+                kbytes = 128
+                t_ = DI[alg][1] + hashlib.new(DI[alg][0], msg).digest()
+                want = (LL.CKM_RSA_X_509, b"\x00\x01" + b"\xff" * (kbytes - len(t_) - 3) + b"\x00" + t_)
+            elif alg in DI:
+                want = ({8: LL.CKM_SHA256_RSA_PKCS, 10: LL.CKM_SHA512_RSA_PKCS}[alg], msg)
+            elif hh:
+                want = (LL.CKM_ECDSA_SHA256, msg)
+            else:
+                want = (LL.CKM_ECDSA, hashlib.sha256(msg).digest())
+            if ent is None or (ent["mech"], ent["data"]) != want:
+                rep.violation("impl-vs-spec", f"look-up #{step + 1} of {kd['id']} on one module object in the sequence hash_using_hsm={seq}: the key asked for with hash_using_hsm={hh} "
+                              f"sent the token mechanism {ent and ent['mech']} with {ent and len(ent['data'])} octets, expected mechanism {want[0]} with {len(want[1])} octets",
+                              {"kind": "repeated-lookup", "alg": alg, "sequence": [str(x) for x in seq], "step": step})
+                break
+    # and after the object is gone from the token, it is not found any more
+    layout = [[{"id": 0, "objs": S.pair(kd["id"], kd)}]]
+    tok = S.build_token(layout)
+    emu.install(tok)
+    mods = modules_from(layout)
+    first = vlib.run_impl(get_p11_key, kd["id"], mods, False)
+    for sl in tok.modules["emu:0"]:
+        sl.objects[:] = [o for o in sl.objects if o.label != kd["id"]]
+    again = vlib.run_impl(get_p11_key, kd["id"], mods, False)
+    count("lookup-after-removal")
+    if first[0] == "ok" and first[1] is not None and again[0] == "ok" and again[1] is not None:
+        rep.violation("impl-vs-spec", f"{kd['id']} is reported as found after its objects were removed from the token (same module object)", {"kind": "lookup-after-removal"})
+
 # symmetric / unknown key types are never used for signing
 for kt in (KeyType.AES, KeyType.DES3):
     sess = type("S", (), {"sign": lambda self, *a: (_ for _ in ()).throw(AssertionError("token asked to sign with a symmetric key"))})()
